@@ -138,9 +138,9 @@ type runner struct {
 	reads   []readRec
 	// statistics
 	midCommitReads, cuts, mmaps, commitRejects, appendRejects, maxRing, trims int
-	lastCount                                                               map[int]uint32
-	lastSeries                                                              map[int]string
-	keepOldest                                                              int
+	lastCount                                                                 map[int]uint32
+	lastSeries                                                                map[int]string
+	keepOldest                                                                int
 }
 
 type readRec struct {
@@ -842,6 +842,29 @@ func main() {
 		t2 := cloneTxns(txns)
 		t2[1].Samples[0].T = 150
 		emit(&sched{Txns: t2, Order: order2, NSeries: 2, SPC: 1, Policy: 0, Corpus: "watermark-old-appender-open"})
+	}
+
+	// ---- corpus: ring wrap-around followed by growth. Appender 0 stays open from the start (it
+	// holds every later clean-up bound at its id), three appenders commit one sample each on
+	// series 1 (the set-up data is trimmed: txIDFirst moves to 2), appender 4 applies one of its
+	// two samples and pauses (ring full, wrapped), appender 5 commits: the ring grows and must be
+	// rotated; the in-flight id of appender 4 sits in the middle of it.
+	{
+		txns := []txn{{Samples: []smp{{Series: 2}}}, {Samples: []smp{{Series: 1}}}, {Samples: []smp{{Series: 1}}}, {Samples: []smp{{Series: 1}}},
+			{Samples: []smp{{Series: 1}, {Series: 1}}}, {Samples: []smp{{Series: 1}}}, {Samples: []smp{{Series: 1}}}}
+		order := []token{{'N', 0}}
+		for _, a := range []int{1, 2, 3} {
+			order = append(order, tokensOf(a, txns[a])...)
+		}
+		order = append(order, token{'N', 4}, token{'S', 4})
+		order = append(order, tokensOf(5, txns[5])...)
+		order = append(order, tokensOf(6, txns[6])...)
+		order = append(order, token{'S', 4}, token{'S', 4}, token{'S', 0}, token{'S', 0})
+		for _, pol := range []int{2, 1} {
+			t := cloneTxns(txns)
+			consistentTimes(t, order, nil)
+			emit(&sched{Txns: t, Order: order, NSeries: 2, SPC: 120, Prefill: 2, Policy: pol, Corpus: "ring-wrap-then-grow"})
+		}
 	}
 
 	// ---- exhaustive: 2 appenders x 2 series x 1..2 samples, every interleaving
